@@ -393,8 +393,8 @@ pub(crate) fn record_challenges(c: &[BlsScalar]) {
 pub(crate) fn record_challenges(_c: &[BlsScalar]) {}
 
 /// Challenges (beta, gamma, alpha, 4 separators, z, v, v_w, u) of the last
-/// `Proof::verify` on this thread.
+/// `Proof::verify` on this thread; the record is cleared by the call.
 #[cfg(feature = "std")]
 pub fn last_challenges() -> Vec<BlsScalar> {
-    CHALLENGES.with(|v| v.borrow().clone())
+    CHALLENGES.with(|v| core::mem::take(&mut *v.borrow_mut()))
 }
